@@ -1,6 +1,7 @@
 package lib
 
 import (
+	"reflect"
 	"sort"
 	"strings"
 )
@@ -227,4 +228,18 @@ func (m *Model) Obs() *Obs {
 		o.Order[p] = append([]string(nil), v...)
 	}
 	return o
+}
+
+// KeyNote names list-key representations that are known root-cause loci:
+// wrapper-union keys are pointers, so two equal keys are different map keys.
+func (c *Cfg) KeyNote(elems []PathElem) string {
+	note := ""
+	c.TypeChain(elems, func(i int, field *FieldInfo, entry *StructInfo) {
+		for _, kf := range entry.KeyFields() {
+			if kf != nil && kf.Type.Kind() == reflect.Interface && c.Wrapper {
+				note = "@wrapper-union-key"
+			}
+		}
+	})
+	return note
 }
